@@ -30,6 +30,8 @@ MODULES = ['dassh.read_input']
 PROPERTY = 'C18'
 FUNCTIONS = ['dassh.read_input:DASSH_Input.check_pin', 'dassh.read_input:DASSH_Input.check_duct',
              'dassh.read_input:DASSH_Input.check_core_specifications', 'dassh.read_input:DASSH_Input.check_unrodded_regions',
+             'dassh.read_input:DASSH_Input.check_assignment_boundary_conditions + convert_assn_deltaT_to_outletT in the order '
+             'DASSH_Input.__init__ calls them',
              'dassh.read_input:_find_rodded_regs / _check_reg_bnds / _get_rodded_reg_bnds',
              'dassh.read_input:DASSH_Input.__init__ + dassh.reactor:Reactor.__init__ + temperature_sweep (run-time contracts: '
              'outcome class per perturbed input)']
@@ -191,8 +193,71 @@ check_axial.run_kw = dict(max_paths=1500, check_div=False, pool_size=12, budget_
 check_axial.need_exit = True
 
 
+def _bc_stages():
+    """the methods DASSH_Input.__init__ calls (in source order, power_only False) that read or rewrite the
+    boundary-condition keywords of an assignment - taken from the real constructor on every run"""
+    import ast
+    import inspect
+    import textwrap
+    from dassh import read_input
+    tree = ast.parse(textwrap.dedent(inspect.getsource(read_input.DASSH_Input.__init__)))
+    calls = [n for n in ast.walk(tree) if isinstance(n, ast.Call) and isinstance(n.func, ast.Attribute)
+             and isinstance(n.func.value, ast.Name) and n.func.value.id == 'self' and not n.args and not n.keywords]
+    calls.sort(key=lambda n: (n.lineno, n.col_offset))
+    out = []
+    for c in calls:
+        m = getattr(read_input.DASSH_Input, c.func.attr, None)
+        if m is None or not callable(m):
+            continue
+        try:
+            src = inspect.getsource(m)
+        except (OSError, TypeError):
+            continue
+        if "'delta_temp'" in src or '"delta_temp"' in src:
+            out.append(c.func.attr)
+    return out
+
+
+def check_bc(S, cfg):
+    """boundary condition of one assigned position through the constructor's own sequence of stages: accepted only
+    if exactly one keyword is given, its value is positive, a temperature rise is positive and an outlet temperature
+    lies above the inlet temperature; what is left for the solver is a flow rate or an outlet temperature"""
+    inp = _inp(S)
+    t_in = S.pos('coolant_inlet_temp', 300.0, 900.0)
+    given = {k: S.real(k, -500.0, 1500.0) for k in cfg['keys']}
+    bc = dict(given)
+    inp.data = {'Core': {'coolant_inlet_temp': t_in}, 'Assignment': {'ByPosition': [[], ['fuel', 1, bc], []]}}
+    stages = _bc_stages()
+    S.holds('bc.constructor_checks_and_converts', len(stages) >= 2)
+    for st in stages:
+        getattr(inp, st)()
+    # ---- accepted
+    S.holds('bc.exactly_one_keyword', len(given) == 1)
+    left = inp.data['Assignment']['ByPosition'][1][2]
+    S.holds('bc.solver_gets_flowrate_or_outlet_temp', sorted(left) in (['flowrate'], ['outlet_temp']))
+    for k, v in given.items():
+        S.lt(f'bc.value_positive[{k}]', 0, v)
+    if 'flowrate' in given and 'flowrate' in left:
+        S.eq('bc.flowrate_kept', left['flowrate'], given['flowrate'])
+    if 'delta_temp' in given and 'outlet_temp' in left and len(given) == 1:
+        S.eq('bc.outlet_is_inlet_plus_rise', left['outlet_temp'], t_in + given['delta_temp'])
+    if 'outlet_temp' in left:
+        S.lt('bc.outlet_above_inlet', t_in, left['outlet_temp'])
+        S.lt('canary.bc_outlet_far_above_inlet', t_in + 100, left['outlet_temp'], canary=True)
+    if 'flowrate' in left:
+        S.lt('canary.bc_flowrate_above_one', 1, left['flowrate'], canary=True)
+
+
+check_bc.cname = 'DASSH_Input.__init__ assignment boundary-condition stages'
+check_bc.run_kw = dict(check_div=False, pool_size=8)
+check_bc.need_exit = True
+
+
 def configs(tier):
-    out = [(check_pin, dict(n_ring=2)), (check_pin, dict(n_ring=5, n_duct=2)), (check_pin, dict(n_ring=3, low_fidelity=True)),
+    out = [(check_bc, dict(keys=['flowrate'])), (check_bc, dict(keys=['outlet_temp'])), (check_bc, dict(keys=['delta_temp'])),
+           (check_bc, dict(keys=['delta_temp', 'outlet_temp'])), (check_bc, dict(keys=['flowrate', 'delta_temp'])),
+           (check_bc, dict(keys=[])),
+           (check_pin, dict(n_ring=2)), (check_pin, dict(n_ring=5, n_duct=2)), (check_pin, dict(n_ring=3, low_fidelity=True)),
            (check_duct, dict(n_asm=2, n_duct=[1, 1])), (check_duct, dict(n_asm=2, n_duct=[1, 2])),
            (check_core, dict(gap_model='flow')), (check_core, dict(gap_model='no_flow')), (check_core, dict(gap_model='none')),
            (check_axial, dict(n_regions=1)), (check_axial, dict(n_regions=2))]
@@ -272,6 +337,14 @@ FAULTS = {
     'missing_bc': lambda t: _sub(t, r', FLOWRATE=0.25', ''),
     'negative_flowrate': lambda t: _sub(t, r'FLOWRATE=0.25', 'FLOWRATE=-0.25'),
     'zero_flowrate': lambda t: _sub(t, r'FLOWRATE=0.25', 'FLOWRATE=0.0'),
+    # a coolant temperature rise that is not positive, or given together with an outlet temperature
+    'negative_delta_temp': lambda t: _sub(t, r'FLOWRATE=0.25', 'DELTA_TEMP=-50.0'),
+    'zero_delta_temp': lambda t: _sub(t, r'FLOWRATE=0.25', 'DELTA_TEMP=0.0'),
+    'delta_temp_and_outlet_temp': lambda t: _sub(t, r'FLOWRATE=0.25', 'DELTA_TEMP=50.0, OUTLET_TEMP=700.0'),
+    'flowrate_and_outlet_temp': lambda t: _sub(t, r'FLOWRATE=0.25', 'FLOWRATE=0.25, OUTLET_TEMP=700.0'),
+    'negative_outlet_temp': lambda t: _sub(t, r'FLOWRATE=0.25', 'OUTLET_TEMP=-700.0'),
+    'outlet_temp_below_inlet': lambda t: _sub(t, r'FLOWRATE=0.25', 'OUTLET_TEMP=600.0'),
+    'outlet_temp_equal_inlet': lambda t: _sub(t, r'FLOWRATE=0.25', 'OUTLET_TEMP=623.15'),
     'unknown_coolant': lambda t: _sub(t, r'coolant_material   = sodium_fixed', 'coolant_material   = unobtainium'),
     'unknown_duct_material': lambda t: _sub(t, r'duct_material   = ss316', 'duct_material   = kryptonite'),
     'unknown_friction': lambda t: _sub(t, r'corr_friction   = CTD', 'corr_friction   = XYZ'),
@@ -339,6 +412,8 @@ VALID = {
     'gap_none': lambda t: _sub(t, r'gap_model          = flow', 'gap_model          = none'),
     'gap_no_flow': lambda t: _sub(t, r'gap_model          = flow', 'gap_model          = no_flow'),
     'gap_duct_average': lambda t: _sub(t, r'gap_model          = flow', 'gap_model          = duct_average'),
+    'delta_temp_bc': lambda t: _sub(t, r'FLOWRATE=0.25', 'DELTA_TEMP=50.0'),
+    'outlet_temp_bc': lambda t: _sub(t, r'FLOWRATE=0.25', 'OUTLET_TEMP=700.0'),
     'total_power_zero': lambda t: _sub(t, r'power_scaling_factor = 1.0', 'power_scaling_factor = 1.0\n    total_power = 0.0'),
     # spacer grids: user loss coefficient; loss correlation with the default solidity (input written in metres)
     'spacer_grid_loss_coefficient': 'grid_loss',
